@@ -75,7 +75,7 @@ def overlap_specs(tier, rng):
     import itertools
     out = []
     texts = [''.join(w) for n in range(1, 6) for w in itertools.product('ab', repeat=n)]
-    for k in range(C.scale(120 if tier == 'quick' else 1200)):
+    for k in range(C.scale(120 if tier == 'quick' else 400)):
         Gb = OVTEMPLATES[k % len(OVTEMPLATES)]
         nts = sorted({l for l, _ in Gb})
         terms = sorted({x for _, rhs in Gb for x in rhs if x.isupper()})
@@ -106,9 +106,9 @@ def overlap_specs(tier, rng):
 def make_specs(tier, rng):
     out = []
     Gs = [G for G in F.bnf_family(3)]
-    pool = [tuple(t) for t in TEMPLATES] * (14 if tier == 'quick' else 60)
-    pool += F.sample(Gs, C.scale(500 if tier == 'quick' else 5000), rng)
-    pool += F.rand_family(C.scale(250 if tier == 'quick' else 3000), rng)
+    pool = [tuple(t) for t in TEMPLATES] * (14 if tier == 'quick' else 40)
+    pool += F.sample(Gs, C.scale(500 if tier == 'quick' else 2000), rng)
+    pool += F.rand_family(C.scale(250 if tier == 'quick' else 1000), rng)
     for Gb in pool:
         nts = sorted({l for l, _ in Gb})
         rprio = {nt: rng.choice([-1, 0, 0, 1, 2, 3]) for nt in nts}
@@ -158,7 +158,7 @@ def body(tier, seed, replay):
         specs = [s for s in specs if not E.deriv_cyclic([(l, list(r)) for l, r in s['Gb']])]
         if not replay:
             specs += overlap_specs(tier, rng)
-        seeds = [0, 1, 2, 3, 4] if tier == 'quick' else list(range(0, 32))
+        seeds = [0, 1, 2, 3, 4] if tier == 'quick' else list(range(0, 16))       # (thorough: 3.5 x the grammars, 16 hash seeds - about 25 minutes)
         # split the spec list over parallel workers per seed: chunks
         chunks = [ch for ch in (specs[i::3] for i in range(3)) if ch]
         from concurrent.futures import ThreadPoolExecutor
